@@ -27,7 +27,7 @@ type term struct {
 	mu      sync.Mutex
 	picks   []string
 	outcome func(n int, u string) byte // 'S','E','P','H' (hold)
-	holds   map[string][]chan byte    // parked calls per URL
+	holds   map[string][]chan byte     // parked calls per URL
 	parked  chan string
 	n       int
 }
